@@ -581,19 +581,6 @@ CLABEL_COVERS = ["labels.ran", "clabels.fill-in", "clabels.no-fill-in", "clabels
 
 
 
-def verify_all(ctx, repo, prop="C16"):
-    dsl.verify(ctx, repo, dsl.Registry(), prop, CONS + ".key_above_threshold", h_key_above_threshold, expect_covers=["threshold.generic-item"])
-    dsl.verify(ctx, repo, dsl.Registry(), prop, CONS + ".clade_probabilities", h_clade_probabilities, expect_covers=SUPPORT_COVERS)
-    dsl.verify(ctx, repo, dsl.Registry(), prop, CONS + ".find_smallest_superset", h_smallest_superset, expect_covers=SUPERSET_COVERS)
-    dsl.verify(ctx, repo, dsl.Registry(), prop, CONS + ".consensus", h_consensus, expect_covers=["consensus.generic-clade"])
-    dsl.verify(ctx, repo, dsl.Registry(), prop, CONS + ".get_consensus_tree", h_pipeline, expect_covers=["pipeline.ran"])
-    dsl.verify(ctx, repo, dsl.Registry(), prop, PT + ".get_tree_from_consensus_graph", h_consensus_labels, expect_covers=CLABEL_COVERS)
-    dsl.verify(ctx, repo, dsl.Registry(), prop, TU + "._clades", h_clades_rec, expect_covers=["clades.rec"])
-    dsl.verify(ctx, repo, dsl.Registry(), prop, CONS + "._relabel", h_relabel_rec, expect_covers=["relabel.rec"])
-    dsl.verify(ctx, repo, dsl.Registry(), prop, CONS + ".clean_tree", h_clean_tree, expect_covers=["clean.with-data", "clean.without-data", "clean.empty", "clean.some-node"])
-    dsl.verify(ctx, repo, dsl.Registry(), prop, TU + ".get_clades", h_get_clades, expect_covers=["get_clades.some-root", "get_clades.no-root"])
-
-
 # ------------------------------------------------------------------------------------------------------------ get_clades (tree/utils.py)
 
 
@@ -917,3 +904,138 @@ def h_clean_tree(I, fi):
         P.check("clean.names-attribute", a1 is not None and a1[0] == ("relabelled-graph",) and a1[1] == "names" and isinstance(a1[2], NameLists) and len(log["attrs"]) == 2, "with data the names attribute is set from the name map", kind="post")
     else:
         P.check("clean.no-names-without-data", len(log["attrs"]) == 1, "without data no names are set", kind="post")
+
+
+# ------------------------------------------------------------------------------------------------------------ from_dict_nx
+
+
+def h_from_dict_nx(I, fi):
+    """from_dict_nx(data, {"graph": dict of dicts, "labels": idx -> node}): a new Tree on the data's grid; one clone per key of the graph other than the
+    root; one edge parent -> child per entry, between the indices registered for those names; every labelled data point is added (in build mode, no
+    path update) to the node its label names, looked up by idx; the recursion values are computed once at the end."""
+    P = I.P
+    nk, nl = alg.sym("n_graph_keys", "Int"), alg.sym("n_labels", "Int")
+    P.assume(z3.And(P.z(nk) >= 1, P.z(nl) >= 0))
+    log = []
+
+    class Idx(Model):
+        def getitem(self, I_, name):
+            return ("index-of", name if isinstance(name, str) else I_.to_num(name).key())
+
+    class GraphRec(Model):
+        def m_add_edge(self, I_, a, b, w):
+            log.append(("edge", a, b, w))
+
+    class TreeRec(Model):
+        py_classes = ("Tree",)
+
+        def __init__(self, grid):
+            self.grid = grid
+
+        def a_root_node_name(self, I_):
+            return "root"
+
+        def m__add_node(self, I_, nd):
+            log.append(("add-node", nd))
+
+        def a__node_indices(self, I_):
+            return Idx()
+
+        def a__graph(self, I_):
+            return GraphRec()
+
+        def m__internal_add_data_point_to_node(self, I_, build, dp, nd):
+            log.append(("add-point", build, dp, nd))
+
+        def m_update(self, I_):
+            log.append(("update",))
+
+    made = []
+    I.registry.class_models["Tree"] = lambda I_, grid=None: (made.append(TreeRec(grid)), made[-1])[1]
+
+    class DP(Model):
+        def __init__(self, i):
+            self.i = i
+
+        def a_idx(self, I_):
+            return alg.raw_app("idx_of", self.i, sort="Int")
+
+        def a_grid_size(self, I_):
+            return ("grid-of-data",)
+
+    data = SymSeq("data", alg.sym("n_data", "Int"), lambda i: DP(I.to_num(i)))
+    P.assume(P.z(alg.sym("n_data", "Int")) >= 1)
+    zipped = []
+
+    class ByIdx(Model):
+        def getitem(self, I_, idx):
+            return ("data-point-with-idx", I_.to_num(idx).key())
+
+    I.registry.globals_override["zip"] = lambda I_, a, b: (zipped.append((a, b)), ("zip",))[1]
+    I.registry.globals_override["dict"] = lambda I_, z=None: ByIdx()
+    kind = {}
+
+    class Children(Model):
+        def __init__(self, p):
+            self.p = p
+
+        def m_keys(self, I_):
+            c = alg.raw_app("n_children_of", I_.to_num(self.p) if not isinstance(self.p, str) else Num.const(-7), sort="Int")
+            I_.P.assume(I_.P.z(c) >= 0)
+            return SymSeq("children", c, lambda j: alg.raw_app("child_name", I_.to_num(j), sort="Int"))
+
+    class GraphDict(Model):
+        def m_keys(self, I_):
+            # the keys: clone names, and the dummy root
+            return SymSeq("graph.keys", nk - 1, lambda j: alg.raw_app("key_name", I_.to_num(j), sort="Int"), tail=["root"])
+
+        def m_items(self, I_):
+            return SymSeq("graph.items", nk - 1, lambda j: (alg.raw_app("key_name", I_.to_num(j), sort="Int"), Children(alg.raw_app("key_name", I_.to_num(j), sort="Int"))), tail=[("root", Children("root"))])
+
+    class Labels(Model):
+        def m_items(self, I_):
+            return SymSeq("labels.items", nl, lambda j: (alg.raw_app("lab_idx", I_.to_num(j), sort="Int"), alg.raw_app("lab_node", I_.to_num(j), sort="Int")))
+
+    td = {"graph": GraphDict(), "labels": Labels()}
+    I.registry.generic_loops.add(fi.qualname)
+    out = I.call_function(fi, [data, td], {}, force_inline=True)
+    dsl.cover(I, "from_dict_nx")
+    P.check("nx-tree.new-tree-on-the-data-grid", len(made) == 1 and made[0].grid == ("grid-of-data",) and out is made[0], "a new Tree on the grid of the data is built and returned", kind="post")
+    P.check("nx-tree.lookup-by-idx", len(zipped) == 1 and zipped[0][1] is data and isinstance(zipped[0][0], SymSeq), "data points are looked up by their idx", kind="post")
+    P.check("nx-tree.update-last", log and log[-1] == ("update",) and [e for e in log if e[0] == "update"] == [("update",)], "the recursion values are computed once, after everything is in place", kind="post")
+    adds = [e for e in log if e[0] == "add-node"]
+    P.check("nx-tree.root-is-not-added-again", all(not isinstance(e[1], str) for e in adds), "the dummy root (already in the new tree) is skipped", kind="post")
+    gens = P.ghost.get("generic_indices", [])
+    for e in adds:
+        P.check("nx-tree.one-clone-per-graph-key", len(adds) == 1 and isinstance(e[1], Num) and any((e[1] - alg.raw_app("key_name", g, sort="Int")).is_zero() for g in gens), "every other key of the graph becomes a clone of that name", kind="post")
+    edges = [e for e in log if e[0] == "edge"]
+    for e in edges:
+        P.check("nx-tree.edges-between-registered-indices", len(edges) == 1 and e[3] is None and isinstance(e[1], tuple) and e[1][0] == "index-of" and isinstance(e[2], tuple) and e[2][0] == "index-of"
+                and any(e[2][1] == alg.raw_app("child_name", g, sort="Int").key() for g in gens), "every (parent, child) entry becomes one edge between the indices registered for those names", kind="post")
+    pts = [e for e in log if e[0] == "add-point"]
+    for e in pts:
+        j = [g for g in gens if e[2] == ("data-point-with-idx", alg.raw_app("lab_idx", g, sort="Int").key())]
+        P.check("nx-tree.labelled-points-placed", len(pts) == 1 and e[1] is True and len(j) == 1 and (I.to_num(e[3]) - alg.raw_app("lab_node", j[0], sort="Int")).is_zero(),
+                "every label (idx -> node) adds the data point with that idx to that node, in build mode", kind="post")
+    if pts:
+        dsl.cover(I, "from_dict_nx.labelled")
+    if edges:
+        dsl.cover(I, "from_dict_nx.edge")
+    if adds:
+        dsl.cover(I, "from_dict_nx.clone")
+
+
+def verify_all(ctx, repo, prop="C16"):
+    dsl.verify(ctx, repo, dsl.Registry(), prop, CONS + ".key_above_threshold", h_key_above_threshold, expect_covers=["threshold.generic-item"])
+    dsl.verify(ctx, repo, dsl.Registry(), prop, CONS + ".clade_probabilities", h_clade_probabilities, expect_covers=SUPPORT_COVERS)
+    dsl.verify(ctx, repo, dsl.Registry(), prop, CONS + ".find_smallest_superset", h_smallest_superset, expect_covers=SUPERSET_COVERS)
+    dsl.verify(ctx, repo, dsl.Registry(), prop, CONS + ".consensus", h_consensus, expect_covers=["consensus.generic-clade"])
+    dsl.verify(ctx, repo, dsl.Registry(), prop, CONS + ".get_consensus_tree", h_pipeline, expect_covers=["pipeline.ran"])
+    dsl.verify(ctx, repo, dsl.Registry(), prop, PT + ".get_tree_from_consensus_graph", h_consensus_labels, expect_covers=CLABEL_COVERS)
+    dsl.verify(ctx, repo, dsl.Registry(), prop, PT + ".from_dict_nx", h_from_dict_nx, expect_covers=["from_dict_nx", "from_dict_nx.labelled", "from_dict_nx.edge", "from_dict_nx.clone"])
+    dsl.verify(ctx, repo, dsl.Registry(), prop, TU + "._clades", h_clades_rec, expect_covers=["clades.rec"])
+    dsl.verify(ctx, repo, dsl.Registry(), prop, CONS + "._relabel", h_relabel_rec, expect_covers=["relabel.rec"])
+    dsl.verify(ctx, repo, dsl.Registry(), prop, CONS + ".clean_tree", h_clean_tree, expect_covers=["clean.with-data", "clean.without-data", "clean.empty", "clean.some-node"])
+    dsl.verify(ctx, repo, dsl.Registry(), prop, TU + ".get_clades", h_get_clades, expect_covers=["get_clades.some-root", "get_clades.no-root"])
+
+
